@@ -357,7 +357,9 @@ class Harness:
 
     def new_item(self, spec):
         self.uid += 1
-        return build_item(spec, self.uid)
+        w = build_item(spec, self.uid)
+        w.c07_uid = self.uid  # creation number, used only as a sort key by the "reorder" op
+        return w
 
     # contents / positions -------------------------------------------------------------------
     def widgets(self):
@@ -531,11 +533,15 @@ class Harness:
             if self.last_size is None:
                 return False
             cols, rows = self.last_size
-            _, button, x, y = op
+            _, button, x, y, *rest = op
+            # the event name as the display modules report it: "mouse press|release|drag" with the held
+            # modifier keys as a prefix ("shift ", "meta ", "ctrl ", in this order); absent = plain press
+            event = rest[0] if rest else "mouse press"
+            is_press = event.endswith("mouse press")
             x %= cols
             y %= rows
             expect = None
-            if button == 1 and last is not None and self.last_size == self.size:
+            if is_press and button == 1 and last is not None and self.last_size == self.size:
                 hit = set()
                 for k, n in last["cands"]:
                     if y >= n:
@@ -547,16 +553,19 @@ class Harness:
                             hit.add(idx)
                 if hit and None not in hit and all(last["widgets"][i].selectable() for i in hit):
                     expect = hit
-            self.guarded(lambda: lb.mouse_event(self.last_size, "mouse press", button, x, y, self.focus))
+            self.guarded(lambda: lb.mouse_event(self.last_size, event, button, x, y, self.focus))
+            self.facts.add("mouse:" + ("modified " if not event.startswith("mouse") else "") + event.split()[-1])
             if expect is not None:
                 self.facts.add("mouse-clause-checked")
+                if event != "mouse press":
+                    self.facts.add("mouse-clause-checked:modified-press")
                 fw = lb.focus
                 if not any(last["widgets"][i] is fw for i in expect):
                     widgets = self.widgets()
                     now = [n for n, w in enumerate(widgets) if w is fw]
                     raise Violation(
                         "mouse-focus",
-                        f"button-1 press at {(x, y)} size {self.last_size} focus={self.focus} on selectable item(s) "
+                        f"button-1 {event!r} at {(x, y)} size {self.last_size} focus={self.focus} on selectable item(s) "
                         f"{sorted(expect)} (window candidates {last['cands']}, spans {last['spans']}): focus is "
                         f"item {now} position {lb.focus_position!r}",
                     )
@@ -565,8 +574,21 @@ class Harness:
             pos = self.positions()
             if not pos:
                 return False
-            _, i, coming = op
-            self.guarded(lambda: lb.set_focus(pos[i % len(pos)], coming))
+            _, i, coming, *rest = op
+            p = pos[i % len(pos)]
+            # (assigning SimpleFocusListWalker.focus directly is NOT generated: it moves the walker's focus
+            # without the 'modified' report that the walker protocol requires of set_focus)
+            sp = rest[0] % 3 if rest else 0
+            if sp == 1 and coming is None:
+                # the container-protocol spelling of set_focus(position)
+                self.facts.add("spelling:focus_position=")
+                self.guarded(lambda: setattr(lb, "focus_position", p))
+            elif sp == 2:
+                # the walker protocol used directly (the walker reports 'modified')
+                self.facts.add("spelling:body.set_focus")
+                self.guarded(lambda: lb.body.set_focus(p))
+            else:
+                self.guarded(lambda: lb.set_focus(p, coming))
             return True
         if kind == "valign":
             v = op[1]
@@ -583,38 +605,122 @@ class Harness:
         if kind == "focusflag":
             self.focus = bool(op[1])
             return True
-        # walker edits
+        # walker edits.  The optional last element of the op selects the spelling: the list walkers are
+        # MonitoredList / MonitoredFocusList, every mutator of the list API is a supported way to insert,
+        # delete or replace items (absent / 0 = insert(), del w[i], w[i] = x, del w[:]).
         n = len(self.positions())
+        wk = self.walker
+        islist = self.kind != "dict"
+
+        def spell(name, fn):
+            self.facts.add("spelling:" + name)
+            self.guarded(fn)
+
         if kind == "insert":
             w = self.new_item(op[2])
             i = op[1] % (n + 1)
-            if self.kind == "dict":
+            sp = (op[3] if len(op) > 3 else 0) % 7
+            if not islist:
                 self.nkey += 1
-                self.walker.w_insert(i, f"k{self.nkey}", w)
+                wk.w_insert(i, f"k{self.nkey}", w)
+            elif sp == 1:
+                spell("w[i:i]=[x]", lambda: wk.__setitem__(slice(i, i), [w]))
+            elif sp == 2 and i == n:
+                spell("append", lambda: wk.append(w))
+            elif sp == 3 and i == n:
+                spell("extend", lambda: wk.extend([w]))
+            elif sp == 4 and i == n:
+                spell("+=", lambda: wk.__iadd__([w]))
+            elif sp == 5 and self.kind == "slw":
+                # SimpleListWalker.contents: "compatibility with old SimpleListWalker class" (returns self)
+                spell("contents.insert", lambda: wk.contents.insert(i, w))
+            elif sp == 6 and i < n:
+                spell("insert(negative)", lambda: wk.insert(i - n, w))
             else:
-                self.guarded(lambda: self.walker.insert(i, w))
+                self.guarded(lambda: wk.insert(i, w))
         elif kind == "delete":
             if not n:
                 return False
             i = op[1] % n
-            if self.kind == "dict":
-                self.walker.w_delete(i)
+            sp = (op[2] if len(op) > 2 else 0) % 6
+            if not islist:
+                wk.w_delete(i)
+            elif sp == 1:
+                spell("pop(i)", lambda: wk.pop(i))
+            elif sp == 2:
+                spell("remove", lambda: wk.remove(wk[i]))
+            elif sp == 3:
+                spell("del w[i:i+1]", lambda: wk.__delitem__(slice(i, i + 1)))
+            elif sp == 4 and i == n - 1:
+                spell("pop()", lambda: wk.pop())
+            elif sp == 5:
+                spell("del w[negative]", lambda: wk.__delitem__(i - n))
             else:
-                self.guarded(lambda: self.walker.__delitem__(i))
+                self.guarded(lambda: wk.__delitem__(i))
         elif kind == "replace":
             if not n:
                 return False
             w = self.new_item(op[2])
             i = op[1] % n
-            if self.kind == "dict":
-                self.walker.w_replace(i, w)
+            sp = (op[3] if len(op) > 3 else 0) % 3
+            if not islist:
+                wk.w_replace(i, w)
+            elif sp == 1:
+                spell("w[i:i+1]=[x]", lambda: wk.__setitem__(slice(i, i + 1), [w]))
+            elif sp == 2:
+                spell("w[negative]=x", lambda: wk.__setitem__(i - n, w))
             else:
-                self.guarded(lambda: self.walker.__setitem__(i, w))
+                self.guarded(lambda: wk.__setitem__(i, w))
         elif kind == "clear":
-            if self.kind == "dict":
-                self.walker.w_clear()
+            sp = (op[1] if len(op) > 1 else 0) % 4
+            if not islist:
+                wk.w_clear()
+            elif sp == 1:
+                spell("clear()", lambda: wk.clear())
+            elif sp == 2:
+                spell("w[:]=[]", lambda: wk.__setitem__(slice(None), []))
+            elif sp == 3:
+                spell("*=0", lambda: wk.__imul__(0))
             else:
-                self.guarded(lambda: self.walker.__delitem__(slice(None)))
+                self.guarded(lambda: wk.__delitem__(slice(None)))
+        elif kind == "splice":
+            # w[i:i+cnt] = [0..3 new items]: several deletions and insertions reported as one modification
+            _, i, cnt, specs = op
+            i %= n + 1
+            cnt %= n - i + 1
+            new = [self.new_item(sp_) for sp_ in specs]
+            if not islist:
+                for _n in range(cnt):
+                    wk.w_delete(i)
+                for off, w in enumerate(new):
+                    self.nkey += 1
+                    wk.w_insert(i + off, f"k{self.nkey}", w)
+            elif not new and cnt:
+                spell("del w[i:j]", lambda: wk.__delitem__(slice(i, i + cnt)))
+            elif not cnt and i == n and len(new) > 1:
+                spell("extend", lambda: wk.extend(new))
+            else:
+                spell("w[i:j]=[...]", lambda: wk.__setitem__(slice(i, i + cnt), new))
+        elif kind == "reorder":
+            # in-place reordering (list.reverse / list.sort are MonitoredList mutators): the same items
+            # deleted and re-inserted elsewhere.  The sort key is a fixed scrambling of the creation number.
+            if n < 2:
+                return False
+
+            def key(w):
+                return (w.c07_uid * 37) % 23
+
+            mode = op[1] % 3
+            if not islist:
+                if mode == 0:
+                    wk.order.reverse()
+                else:
+                    wk.order.sort(key=lambda k: key(wk.d[k]), reverse=mode == 2)
+                wk._modified()
+            elif mode == 0:
+                spell("reverse()", lambda: wk.reverse())
+            else:
+                spell("sort()", lambda: wk.sort(key=key, reverse=mode == 2))
         else:
             raise AssertionError(op)
         self.edited = True
@@ -695,21 +801,54 @@ _valign = st.one_of(
     st.tuples(st.just("relative"), st.integers(0, 100)).map(list),
 )
 
-_op_plain = st.one_of(
-    st.tuples(st.just("key"), _key),
-    st.tuples(st.just("key"), _key),
-    st.tuples(st.just("key"), _key),
-    st.tuples(st.just("mouse"), st.sampled_from([1, 1, 1, 4, 5, 4, 5, 3]), st.integers(0, 19), st.integers(0, 9)),
-    st.tuples(st.just("mouse"), st.sampled_from([1, 1, 1, 4, 5, 4, 5, 3]), st.integers(0, 19), st.integers(0, 9)),
-    st.tuples(st.just("set_focus"), st.integers(0, 12), st.sampled_from([None, "above", "below"])),
-    st.tuples(st.just("valign"), _valign),
-    st.tuples(st.just("resize"), st.integers(1, 20), st.integers(1, 10)),
-    st.tuples(st.just("focusflag"), st.integers(0, 1)),
-    st.tuples(st.just("insert"), st.integers(0, 12), _item),
-    st.tuples(st.just("delete"), st.integers(0, 12)),
-    st.tuples(st.just("replace"), st.integers(0, 12), _item),
-    st.tuples(st.just("clear")),
-).map(list)
+# event names as urwid's display modules build them (escape.py read_mouse_info / read_sgrmouse_info):
+# held modifiers as a prefix in the order shift, meta, ctrl, then "mouse press|release|drag"
+MOUSE_PREFIXES = ["", "shift ", "meta ", "ctrl ", "shift meta ", "shift ctrl ", "meta ctrl ", "shift meta ctrl "]
+
+
+def _mouse_press():
+    return st.tuples(
+        st.just("mouse"),
+        st.sampled_from([1, 1, 1, 1, 4, 5, 4, 5, 3, 2]),
+        st.integers(0, 19),
+        st.integers(0, 9),
+        st.one_of(st.just(""), st.sampled_from(MOUSE_PREFIXES)).map(lambda p: p + "mouse press"),
+    )
+
+
+def _mouse_other():
+    return st.tuples(
+        st.just("mouse"),
+        st.sampled_from([0, 1, 1, 2, 3]),  # a release often carries no button number (0)
+        st.integers(0, 19),
+        st.integers(0, 9),
+        st.tuples(st.sampled_from(MOUSE_PREFIXES), st.sampled_from(["release", "drag"])).map(
+            lambda t: t[0] + "mouse " + t[1]
+        ),
+    ).filter(lambda t: t[1] != 0 or t[4].endswith("release"))
+
+
+_sp = st.integers(0, 6)  # spelling selector, interpreted modulo the number of spellings of the op
+_coming = st.sampled_from([None, "above", "below"])
+
+# (weight, factory): one_of draws uniformly over *distinct* strategy objects, so every repetition is
+# built afresh
+_OP_WEIGHTS = [
+    (6, lambda: st.tuples(st.just("key"), _key)),
+    (4, _mouse_press),
+    (1, _mouse_other),
+    (2, lambda: st.tuples(st.just("set_focus"), st.integers(0, 12), _coming, st.integers(0, 2))),
+    (2, lambda: st.tuples(st.just("valign"), _valign)),
+    (2, lambda: st.tuples(st.just("resize"), st.integers(1, 20), st.integers(1, 10))),
+    (2, lambda: st.tuples(st.just("focusflag"), st.integers(0, 1))),
+    (2, lambda: st.tuples(st.just("insert"), st.integers(0, 12), _item, _sp)),
+    (2, lambda: st.tuples(st.just("delete"), st.integers(0, 12), _sp)),
+    (2, lambda: st.tuples(st.just("replace"), st.integers(0, 12), _item, _sp)),
+    (2, lambda: st.tuples(st.just("clear"), _sp)),
+    (1, lambda: st.tuples(st.just("splice"), st.integers(0, 12), st.integers(0, 4), st.lists(_item, max_size=3))),
+    (1, lambda: st.tuples(st.just("reorder"), st.integers(0, 2))),
+]
+_op_plain = st.one_of(*[f() for wgt, f in _OP_WEIGHTS for _ in range(wgt)]).map(list)
 
 
 def _mark(pair):
